@@ -37,12 +37,19 @@ def run(chk):
         r3(chk, T, name)
         r5(chk, T, name)
         r6(chk, T, name)
+        r10(chk, T, name)
     from .. import numrules
     numrules.rule_split_numbers(chk, prog, "C03.R8", maxlen=4 if chk.tier == "quick" else 12,
                                 modes=((0, "default"),) if chk.tier == "quick" else ((0, "default"), (F_STRICT, "strict")))
+    from .. import numtok
+    numrules.rule_split_numbers(chk, prog, "C03.R9", maxlen=6, alpha=numtok.LIT_ALPHA,
+                                modes=((0, "default"),) if chk.tier == "quick" else ((0, "default"), (F_STRICT, "strict")),
+                                text="literal tokens (null / true / false / NaN): from every reachable (configuration, saved text) pair, "
+                                     "feeding two bytes in one call and in two calls gives the same status, consumed count, successor "
+                                     "configuration, saved text and constructor calls")
     chk.undecided_clauses += [
         "equality of the *values* produced by a split and an unsplit parse (only status, value presence, end position and successor "
-        "configuration are compared; literal token text is opaque, number text is modelled by R8)",
+        "configuration are compared; number and literal token text is modelled by R8 / R9)",
         "numbers: R8 compares two-byte calls with two one-byte calls from every reachable (configuration, saved text) pair; longer "
         "chunkings follow by induction on the carried scan state, which the comparison shows equivalent to the re-derived one",
         "VALIDATE_UTF8 interplay beyond R1 (thorough tier explores the flag)",
@@ -584,3 +591,18 @@ def r6(chk, T, name):
         chk.proven(rid, "json_tokener_parse_ex", sig, "json_tokener.c",
                    "%d configurations x byte-class pairs (%d comparisons) agree" % (nconf, npairs))
     chk.floor(rid + "." + name, nconf, 100, "configurations compared")
+
+
+def r10(chk, T, name):
+    rid = "C03.R10"
+    chk.rule(rid, "a call reads its input only inside the chunk it was given: no step looks at bytes before the chunk's start (where an "
+                  "earlier chunk may or may not still be) or at / after its length, directly or through a library call on the cursor")
+    la = [(cfg, o) for cfg, outs in T.trans.items() for o in outs if o.lookahead]
+    sig = "%s: reads stay inside the chunk" % name
+    if la:
+        cfg, o = la[0]
+        chk.refuted(rid, "json_tokener_parse_ex", sig, "json_tokener.c",
+                    "from configuration %s, byte class %s: the call reads input outside the chunk it was given, so its result depends on "
+                    "where the previous chunk happens to be in memory" % (T.cfg_str(cfg), product.show(bytes(sorted(b % 256 for b in o.bytes))[:8])))
+    else:
+        chk.proven(rid, "json_tokener_parse_ex", sig, "json_tokener.c", "no read outside the chunk in %d transitions" % sum(len(v) for v in T.trans.values()))
